@@ -259,6 +259,9 @@ def main(tier: str) -> int:
     sigs = set()
     samples = []
     for r in results:
+        for key, msg, rp in r["viol"]:
+            rep.add_violation(key, msg, rp)
+    for r in results:
         if r["internal"]:
             raise explore.InternalError(r["internal"])
         states += r["states"]
